@@ -10,7 +10,8 @@ use sylvia::cw_std::{Coin, Uint128};
 
 #[derive(Clone, Debug)]
 pub enum Op {
-    Instantiate { args: Vec<Value>, label: Option<String>, admin: Option<u8>, funds: Option<Vec<(u8, u16)>>, salt: Option<Vec<u8>>, sender: u8 },
+    /// `pre`: earlier calls of `with_admin` (0) / `with_salt` (1) on the same proxy, later overwritten
+    Instantiate { args: Vec<Value>, label: Option<String>, admin: Option<u8>, funds: Option<Vec<(u8, u16)>>, salt: Option<Vec<u8>>, sender: u8, pre: Vec<(u8, Option<Vec<u8>>)> },
     Call { handler: usize, args: Vec<Value>, contract: u16, funds: Vec<(u8, u16)>, sender: u8 },
     Migrate { args: Vec<Value>, contract: u16, sender: u8 },
     SetFail { contract: u16, fail: bool },
@@ -21,7 +22,7 @@ const DENOMS: [&str; 2] = ["ucosm", "ustake"];
 impl Op {
     fn json(&self) -> Value {
         match self {
-            Op::Instantiate { args, label, admin, funds, salt, sender } => json!({"op": "instantiate", "args": args, "label": label, "admin": admin, "funds": funds, "salt": salt, "sender": sender}),
+            Op::Instantiate { args, label, admin, funds, salt, sender, pre } => json!({"op": "instantiate", "args": args, "label": label, "admin": admin, "funds": funds, "salt": salt, "sender": sender, "pre": pre}),
             Op::Call { handler, args, contract, funds, sender } => json!({"op": "call", "handler": handler, "args": args, "contract": contract, "funds": funds, "sender": sender}),
             Op::Migrate { args, contract, sender } => json!({"op": "migrate", "args": args, "contract": contract, "sender": sender}),
             Op::SetFail { contract, fail } => json!({"op": "set_fail", "contract": contract, "fail": fail}),
@@ -37,6 +38,7 @@ impl Op {
                 funds: if v["funds"].is_null() { None } else { funds(&v["funds"]) },
                 salt: if v["salt"].is_null() { None } else { serde_json::from_value(v["salt"].clone()).ok() },
                 sender: v["sender"].as_u64()? as u8,
+                pre: serde_json::from_value(v["pre"].clone()).unwrap_or_default(),
             }),
             "call" => Some(Op::Call { handler: v["handler"].as_u64()? as usize, args: v["args"].as_array()?.clone(), contract: v["contract"].as_u64()? as u16, funds: funds(&v["funds"])?, sender: v["sender"].as_u64()? as u8 }),
             "migrate" => Some(Op::Migrate { args: v["args"].as_array()?.clone(), contract: v["contract"].as_u64()? as u16, sender: v["sender"].as_u64()? as u8 }),
@@ -78,8 +80,9 @@ fn history_strategy(handlers: &[HandlerView], inst: &HandlerView, migrate: Optio
         proptest::option::of(funds_strategy()),
         proptest::option::of(proptest::collection::vec(any::<u8>(), 1..8)),
         0u8..3,
+        prop_oneof![3 => Just(vec![]), 2 => proptest::collection::vec((0u8..2, proptest::option::of(proptest::collection::vec(any::<u8>(), 1..6))), 1..4)],
     )
-        .prop_map(|(args, label, admin, funds, salt, sender)| Op::Instantiate { args, label, admin, funds, salt, sender })
+        .prop_map(|(args, label, admin, funds, salt, sender, pre)| Op::Instantiate { args, label, admin, funds, salt, sender, pre })
         .boxed();
     let mut choices: Vec<(u32, BoxedStrategy<Op>)> = vec![(3, inst_op.clone())];
     if !calls.is_empty() {
@@ -128,8 +131,13 @@ pub fn run(p: &Prog, cfg: &Cfg, rep: &mut Report) {
         for (step, op) in hist.0.iter().enumerate() {
             let at = |what: &str, detail: Value| viol(what.to_string(), "proxy call and raw JSON submission diverge", json!({"step": step, "op": op.json(), "detail": detail}));
             let (ra, rb, handler): (StepRes, StepRes, Option<&HandlerView>) = match op {
-                Op::Instantiate { args, label, admin, funds, salt, sender } => {
-                    let opts = InstOpts { label: label.clone(), admin: admin.map(|a| senders[a as usize % senders.len()].clone()), funds: funds.as_ref().map(|f| coins_of(f)), salt: salt.clone() };
+                Op::Instantiate { args, label, admin, funds, salt, sender, pre } => {
+                    let pre_admin: Vec<Option<String>> = pre.iter().filter(|(w, _)| *w == 0).map(|(_, v)| v.as_ref().map(|b| senders[b[0] as usize % senders.len()].clone())).collect();
+                    let pre_salt: Vec<Option<Vec<u8>>> = pre.iter().filter(|(w, _)| *w == 1).map(|(_, v)| v.clone()).collect();
+                    if !pre.is_empty() {
+                        tally.class("instantiate:setters-called-repeatedly");
+                    }
+                    let opts = InstOpts { label: label.clone(), admin: admin.map(|a| senders[a as usize % senders.len()].clone()), funds: funds.as_ref().map(|f| coins_of(f)), salt: salt.clone(), pre_admin, pre_salt };
                     let n = label.is_some() as u8 + admin.is_some() as u8 + funds.is_some() as u8 + salt.is_some() as u8;
                     tally.class(&format!("instantiate:options={n}"));
                     if n >= 2 {
